@@ -17,6 +17,7 @@ pub mod rules;
 pub mod c10;
 pub mod c12;
 pub mod c16;
+pub mod c18;
 pub mod pat;
 pub mod c19;
 pub mod c20;
